@@ -11,7 +11,7 @@ CONSTANTS
   Founds = {"1"}
   Rels = {"none", "full1", "port0"}
   TcpTypes = {"", "active", "passive", "so"}
-  ExtKeys = {"generation", "ufrag", "x"}
+  ExtKeys = {"generation", "ufrag"}
   ExtVals = {"", "OWN", "FOREIGN"}
   MaxExts = 2
 INIT Init
